@@ -17,11 +17,17 @@
 //   write <slot> <via> <path> <name> <kind> <i>   write catalogue value i through that slot
 //   read  <via> <path> <name> <kind> <i|-|?> <prefill>   read from a fresh READ handle
 //                                        -> match | mismatch got=.. want=.. | value .. | is <i> | other .. | exc ..
+//   backdoor <slot> loc|handle|raw <via> <path> <name> <kind> <i>   try to write through another accessor
+//                                        (CheckpointWriter on reader.getLoc() / on getHandle().openGroup(),
+//                                        raw HDF5 calls on getHandle())
+//   xprobe                               can another process open the file with READ now? -> ok | exc ..
 //   fresh / endfresh                     bracket the reads of one observation: they share ONE fresh READ
 //                                        handle (opened after the call under test) instead of one each
 //   fhash                                checksum of the file bytes
 //   catalog                              list kinds/values
 // <via>: g = getWriter("/first") + openChild(rest), r = getWriter() + openChild(all)
+#include <unistd.h>
+
 #include <cstdint>
 #include <cstdio>
 #include <cstring>
@@ -225,6 +231,7 @@ struct BlockKind : KindBase {
 
 struct TableKind : KindBase {
   bool compact = false;  // the optional third argument of CheckpointWriter::openTable
+  bool rowwise = false;  // writeToRow/readFromRow per row instead of write(vector)/read(vector)
   std::vector<std::vector<RowVal>> vals;
   size_t n() const override { return vals.size(); }
   void write(CheckpointWriter& w, const std::string& name, size_t i) override {
@@ -238,13 +245,21 @@ struct TableKind : KindBase {
       dv[k].f = rows[k].f;
       dv[k].label = const_cast<char*>(rows[k].label.c_str());
     }
-    table.write(dv);
+    if (rowwise) {
+      for (size_t k = 0; k < dv.size(); ++k) table.writeToRow(&dv[k], k);
+    } else {
+      table.write(dv);
+    }
   }
   Blob read(CheckpointReader& r, const std::string& name, bool) override {
     CptTable table = r.openTable<VRow>(name);
     std::vector<VRow::data> dv(table.numRows());
     for (auto& d : dv) d.label = nullptr;
-    table.read(dv);
+    if (rowwise) {
+      for (size_t k = 0; k < dv.size(); ++k) table.readFromRow(&dv[k], k);
+    } else {
+      table.read(dv);
+    }
     std::vector<RowVal> rows;
     for (auto& d : dv) {
       RowVal rv;
@@ -303,11 +318,23 @@ static std::map<std::string, std::unique_ptr<KindBase>> MakeKinds() {
   K["flt"].reset(new Kind<float>({0.0f, -0.0f, 1.5f, BitsF(0x7fc00123u), BitsF(0x00000001u), 3.4e38f}, 0.0f,
                                  9.5f, BlobScalar<float>));
   K["bool"].reset(new Kind<bool>({false, true}, false, true, BlobBool));
+  // strings around the only string-length constant of the checkpoint headers (CptTable::MaxStringSize),
+  // with embedded UTF-8 (2- and 3-byte sequences; the lengths are byte counts)
+  const size_t M = CptTable::MaxStringSize;
+  auto lenstr = [](size_t n) {
+    const std::string unit = "a\xc3\xa9 \xe2\x9c\x93z";  // 8 bytes
+    std::string r;
+    while (r.size() + unit.size() <= n) r += unit;
+    while (r.size() < n) r += static_cast<char>('0' + r.size() % 10);
+    return r;
+  };
+  const vector<string> edge = {lenstr(M - 1), lenstr(M), lenstr(M + 1), lenstr(5000)};
   {
     string longs;
     for (int i = 0; i < 1500; ++i) longs += static_cast<char>('a' + i % 26);
     K["str"].reset(new Kind<string>({"", "hello", "h\xc3\xa9llo w\xc3\xb6rld \xe2\x9c\x93 \xf0\x9f\x98\x80",
-                                     "  two  spaces ", " ", longs, "line\nbreak\ttab", "x"},
+                                     "  two  spaces ", " ", longs, "line\nbreak\ttab", "x", edge[0], edge[1],
+                                     edge[2], edge[3]},
                                     "", "previous content", BlobStr));
   }
   K["vint"].reset(new Kind<vector<int>>({{}, {7}, {0, -1, 2147483647, std::numeric_limits<int>::min(), 5},
@@ -327,7 +354,9 @@ static std::map<std::string, std::unique_ptr<KindBase>> MakeKinds() {
                                             {"a"},
                                             {"", "h\xc3\xa9llo", " x y ", ""},
                                             {"alpha", "beta", "gamma", "delta", "epsilon with spaces"},
-                                            {"one", "two"}},
+                                            {"one", "two"},
+                                            {edge[2]},
+                                            {"", "x", edge[0], edge[1], edge[2], edge[3], "tail"}},
                                            {}, {"old", "stuff"}, BlobVStr));
   {
     using M = Eigen::MatrixXd;
@@ -422,7 +451,14 @@ static std::map<std::string, std::unique_ptr<KindBase>> MakeKinds() {
     std::vector<RowVal> bigt;  // 3500 rows of 32 bytes: 112 kB
     for (Index i = 0; i < 3500; ++i) bigt.push_back({i, 0.5 * static_cast<double>(i), "r" + std::to_string(i % 7), 1.0f});
     tk->vals.push_back(bigt);
+    tk->vals.push_back({{1, 1.0, edge[0], 1.0f}, {2, 2.0, edge[1], 2.0f}, {3, 3.0, edge[2], 3.0f},
+                        {4, 4.0, edge[3], 4.0f}, {5, 5.0, "x", 5.0f}});
     K["tab"].reset(tk);
+    // the same tables written and read ROW BY ROW (CptTable::writeToRow / readFromRow)
+    auto* tr = new TableKind();
+    tr->rowwise = true;
+    tr->vals = {tk->vals[0], tk->vals[1], tk->vals[2], tk->vals[3], tk->vals[4], tk->vals[6]};
+    K["tabr"].reset(tr);
     // the same (small) tables written with openTable(name, rows, compact = true)
     auto* tc = new TableKind();
     tc->compact = true;
@@ -492,8 +528,18 @@ static std::string OneLine(std::string s) {
   return s;
 }
 
-int main() {
+int main(int argc, char** argv) {
   H5::Exception::dontPrint();
+  if (argc == 3 && std::string(argv[1]) == "--probe-read") {
+    try {
+      CheckpointFile f(argv[2], CheckpointAccessLevel::READ);
+      CheckpointReader r = f.getReader();
+      std::cout << "ok" << std::endl;
+    } catch (const std::exception& e) {
+      std::cout << "exc " << OneLine(e.what()) << std::endl;
+    }
+    return 0;
+  }
   auto kinds = MakeKinds();
   std::string fname;
   std::map<std::string, std::unique_ptr<CheckpointFile>> session;  // handle slot -> open file object
@@ -545,6 +591,57 @@ int main() {
           k.write(w, PctDecode(name), idx);
         }
         std::cout << "ok" << std::endl;
+      } else if (cmd == "backdoor") {
+        // try to modify the file through an accessor other than getWriter
+        std::string slot, door, via, path, name, kind;
+        size_t idx;
+        in >> slot >> door >> via >> path >> name >> kind >> idx;
+        auto it = session.find(slot);
+        if (it == session.end() || !it->second) throw std::logic_error("driver: no session handle");
+        CheckpointFile& f = *it->second;
+        KindBase& k = *kinds.at(kind);
+        if (door == "loc") {
+          CheckpointReader r = ReaderFor(f, via, path);
+          CheckpointWriter w(r.getLoc(), path);
+          k.write(w, PctDecode(name), idx);
+        } else if (door == "handle") {
+          CheckpointWriter w(f.getHandle().openGroup(path), path);
+          k.write(w, PctDecode(name), idx);
+        } else if (door == "raw") {
+          H5::H5File h5 = f.getHandle();
+          H5::Group g;
+          try {
+            g = h5.openGroup(path);
+          } catch (H5::Exception&) {
+            g = h5.createGroup(path);
+          }
+          // (object creation/deletion, which HDF5 checks against the file's intent; H5Awrite on an existing
+          // attribute is not used here: HDF5 1.10 refuses it only after changing its cached copy)
+          hsize_t d[2] = {1, 1};
+          H5::DataSpace dp(2, d);
+          long v = static_cast<long>(idx) + 4711;
+          std::string dn = PctDecode(name);
+          if (H5Lexists(g.getId(), dn.c_str(), H5P_DEFAULT) > 0) g.unlink(dn);
+          H5::DataSet ds = g.createDataSet(dn, H5::PredType::NATIVE_LONG, dp);
+          ds.write(&v, H5::PredType::NATIVE_LONG);
+          h5.flush(H5F_SCOPE_GLOBAL);
+        } else {
+          throw std::logic_error("driver: unknown door");
+        }
+        std::cout << "ok" << std::endl;
+      } else if (cmd == "xprobe") {
+        // can ANOTHER PROCESS open the file with CheckpointAccessLevel::READ right now?
+        char self[4096] = {0};
+        if (readlink("/proc/self/exe", self, sizeof(self) - 1) <= 0) throw std::runtime_error("driver: readlink");
+        std::string c = std::string("'") + self + "' --probe-read '" + fname + "' 2>/dev/null";
+        FILE* pp = popen(c.c_str(), "r");
+        char buf[512] = {0};
+        std::string out;
+        if (pp) {
+          if (fgets(buf, sizeof(buf), pp)) out = buf;
+          pclose(pp);
+        }
+        std::cout << (out.empty() ? "err no answer from the probe process" : OneLine(out)) << std::endl;
       } else if (cmd == "read") {
         std::string via, path, name, kind, want;
         int prefill;
